@@ -216,8 +216,7 @@ theorem isNano_iff (v : Int) : Gen.IsTimeInNano v = true ↔ 1000000000000000000
   simp [Gen.IsTimeInNano]
 
 theorem jpParseFloat_fracText (s f : Nat) (hs : 1 ≤ s) (hs2 : s < 10000000000) (hf : f < 1000) :
-    ∃ q x, jpParseFloat (fracText s f) = some ⟨false, q, x⟩ ∧ F64.truncMag ⟨false, q, x⟩ = s := by
-  refine ⟨(roundPos (1000 * s + f) 1000).1, (roundPos (1000 * s + f) 1000).2, ?_, truncMag_round_frac s f hs hs2 hf⟩
+    jpParseFloat (fracText s f) = some ⟨false, (roundPos (1000 * s + f) 1000).1, (roundPos (1000 * s + f) 1000).2⟩ := by
   have hm0 : ¬ (1000 * s + f = 0) := by omega
   have hlen1 : 0 < (Nat.toDigits 10 (1000 * s + f)).length := Nat.length_toDigits_pos
   have hlen2 : (Nat.toDigits 10 (1000 * s + f)).length ≤ 13 :=
@@ -261,23 +260,6 @@ theorem jpParseInt_fracText (s f : Nat) (hs : s < 9223372036854775808) : jpParse
   unfold jpParseInt
   simp only [hne, Bool.false_eq_true, if_false, hh, hm, hfold]
 
-theorem extractNum_fracText (s f : Nat) (hs : 100000000 ≤ s) (hs2 : s < 10000000000) (hf : f < 1000) :
-    extractNum (fracText s f) = (s : Int) * 1000 := by
-  obtain ⟨q, x, hpf, htm⟩ := jpParseFloat_fracText s f (by omega) hs2 hf
-  have hpi : jpParseInt (fracText s f) = none := jpParseInt_fracText s f (by omega)
-  unfold extractNum
-  simp only [hpi, hpf]
-  have hu : f64ToU64 ⟨false, q, x⟩ = (s : Int) := by
-    simp only [f64ToU64, htm, Bool.false_eq_true, if_false]
-    have : ((s : Nat) : Int) < 18446744073709551616 := by omega
-    simp only [this, if_true]
-  have hmil : Gen.IsTimeInMilli (s : Int) = false := by
-    cases h : Gen.IsTimeInMilli (s : Int) with
-    | false => rfl
-    | true => have := (isMilli_iff _).1 h; omega
-  simp only [hu, hmil, Bool.not_false, if_true]
-  unfold wrapU64; omega
-
 theorem goParseUint_dec (n : Nat) (h : n < 18446744073709551616) : goParseUint (dec n) = some (n : Int) := by
   obtain ⟨c, r, hcr, _⟩ := dec_head n
   have hne : (dec n).isEmpty = false := by rw [hcr]; rfl
@@ -305,29 +287,40 @@ theorem isNano_false {v : Int} (h : v < 1000000000000000000) : Gen.IsTimeInNano 
 
 theorem isNano_true {v : Int} (h : 1000000000000000000 ≤ v) : Gen.IsTimeInNano v = true := (isNano_iff _).2 h
 
+
+/-! the unit cascade on the three magnitude classes -/
+
+theorem scaleUnits_sec (v : Int) (h0 : 0 ≤ v) (h1 : v < 99999999999) : scaleUnits v = v * 1000 := by
+  simp only [scaleUnits, isNano_false (v := v) (by omega), isMilli_false h1, Bool.false_eq_true, if_false,
+    Bool.not_false, if_true]
+  unfold wrapU64; omega
+
+theorem scaleUnits_milli (v : Int) (h0 : 99999999999 ≤ v) (h1 : v < 1000000000000000000) : scaleUnits v = v := by
+  simp only [scaleUnits, isNano_false h1, isMilli_true h0, Bool.false_eq_true, if_false, Bool.not_true]
+
+theorem scaleUnits_nano (v : Int) (h0 : 1000000000000000000 ≤ v) (h1 : v < 18446744073709551616) :
+    scaleUnits v = v / 1000000 := by
+  have hd : Int.tdiv v 1000000 = v / 1000000 := Int.tdiv_eq_ediv_of_nonneg (by omega)
+  have hw : wrapU64 (Int.tdiv v 1000000) = v / 1000000 := by rw [hd]; unfold wrapU64; omega
+  simp only [scaleUnits, isNano_true h0, if_true, hw, isMilli_true (v := v / 1000000) (by omega), Bool.not_true,
+    Bool.false_eq_true, if_false]
+
+/-- the cascade never turns a non-zero uint64 reading into 0 (the thresholds keep the ×1000 product
+far below 2^64, and a nanosecond reading stays ≥ 10^12 after the division) -/
+theorem scaleUnits_eq_zero_iff (v : Int) (h0 : 0 ≤ v) (h1 : v < 18446744073709551616) :
+    scaleUnits v = 0 ↔ v = 0 := by
+  cases Decidable.em (v < 99999999999) with
+  | inl h => rw [scaleUnits_sec v h0 h]; omega
+  | inr h =>
+    cases Decidable.em (v < 1000000000000000000) with
+    | inl h' => rw [scaleUnits_milli v (by omega) h']
+    | inr h' => rw [scaleUnits_nano v (by omega) h1]; omega
+
 /-- the jp.Number branch on an integer rendering below 2^63 -/
-theorem extractNum_dec (n : Nat) (h : n < 9223372036854775808) :
-    extractNum (dec n) = if Gen.IsTimeInMilli (n : Int) then (n : Int) else (n : Int) * 1000 % 18446744073709551616 := by
+theorem extractNum_dec (n : Nat) (h : n < 9223372036854775808) : extractNum (dec n) = scaleUnits (n : Int) := by
   have hw : wrapU64 (n : Int) = (n : Int) := by unfold wrapU64; omega
   unfold extractNum
   simp only [jpParseInt_dec n h, hw]
-  cases Gen.IsTimeInMilli (n : Int) <;> simp [wrapU64]
-
-/-- the seconds → milliseconds scaling never turns a non-zero uint64 reading into 0 (the threshold
-keeps the product far below 2^64) -/
-theorem scale_eq_zero_iff (w : Int) (h0 : 0 ≤ w) (h1 : w < 18446744073709551616) :
-    (if (!Gen.IsTimeInMilli w) = true then wrapU64 (w * 1000) else w) = 0 ↔ w = 0 := by
-  cases hm : Gen.IsTimeInMilli w with
-  | true =>
-    have := (isMilli_iff w).1 hm
-    simp only [Bool.not_true, Bool.false_eq_true, if_false]
-  | false =>
-    have : w < 99999999999 := by
-      cases Decidable.em (w < 99999999999) with
-      | inl h => exact h
-      | inr h => have := isMilli_true (v := w) (by omega); rw [this] at hm; cases hm
-    simp only [Bool.not_false, if_true]
-    unfold wrapU64; omega
 
 theorem f64ToU64_range (f : F64) : 0 ≤ f64ToU64 f ∧ f64ToU64 f < 18446744073709551616 := by
   unfold f64ToU64 f64ToS64 wrapU64
@@ -346,21 +339,153 @@ theorem goParseUint_range {s : List Char} {v : Int} (h : goParseUint s = some v)
     · cases h; omega
     · cases h
 
-/-- ConvertTimestampToMillis on a ParseUint-able string: the result is 0 only for the value 0 -/
-theorem convert_uint_eq_zero_iff (v : Int) (h0 : 0 ≤ v) (h1 : v < 18446744073709551616) :
-    (if (!Gen.IsTimeInMilli (if Gen.IsTimeInNano v = true then wrapU64 (Int.tdiv v 1000000) else v)) = true
-      then wrapU64 ((if Gen.IsTimeInNano v = true then wrapU64 (Int.tdiv v 1000000) else v) * 1000)
-      else (if Gen.IsTimeInNano v = true then wrapU64 (Int.tdiv v 1000000) else v)) = 0 ↔ v = 0 := by
-  cases hn : Gen.IsTimeInNano v with
-  | true =>
-    have hn' := (isNano_iff v).1 hn
-    have hd : Int.tdiv v 1000000 = v / 1000000 := Int.tdiv_eq_ediv_of_nonneg (by omega)
-    have hw : wrapU64 (Int.tdiv v 1000000) = v / 1000000 := by rw [hd]; unfold wrapU64; omega
-    simp only [if_true, hw]
-    rw [scale_eq_zero_iff (v / 1000000) (by omega) (by omega)]
+
+/-! the fixed fractional-seconds path: binary64 of `<s>.<fff>`, times 1000, math.Round -/
+
+/-- pure arithmetic core of "parse `<s>.<fff>` to binary64, multiply by 1000, math.Round":
+`q1/P1` is within 1000/P1 of T/1000·…, the product grid has step 1/(4·P2'), the result rounds to T -/
+theorem round_core (T q1 P1 P2' q2 : Nat) (hP1 : 4000 < P1) (hP2 : 0 < P2')
+    (hlo : T * P1 ≤ 1000 * q1 + 1000) (hhi : 1000 * q1 ≤ T * P1 + 1000)
+    (hq2 : q2 = 1000 * q1 * (4 * P2') / P1 ∨ q2 = 1000 * q1 * (4 * P2') / P1 + 1) :
+    (2 * q2 + 4 * P2') / (2 * (4 * P2')) = T := by
+  have hP1pos : 0 < P1 := by omega
+  generalize hq0 : 1000 * q1 * (4 * P2') / P1 = q0 at hq2
+  -- lower bound: 4·T·P2' ≤ q0 + P2'
+  have hL : 4 * (T * P2') ≤ q0 + P2' := by
+    have h1 : 4 * (T * P1) ≤ 4000 * q1 + P1 := by omega
+    have h2 : P2' * (4 * (T * P1)) ≤ P2' * (4000 * q1 + P1) := Nat.mul_le_mul_left _ h1
+    -- (4·T·P2' − P2')·P1 ≤ 1000 q1 (4 P2')
+    have h3 : (4 * (T * P2') - P2') * P1 ≤ 1000 * q1 * (4 * P2') := by
+      have e1 : (4 * (T * P2') - P2') * P1 = P2' * (4 * (T * P1)) - P2' * P1 := by
+        rw [Nat.sub_mul]
+        congr 1
+        ac_rfl
+      have e2 : P2' * (4000 * q1 + P1) = 1000 * q1 * (4 * P2') + P2' * P1 := by
+        rw [Nat.mul_add]
+        congr 1
+        have : (4000:Nat) = 1000 * 4 := rfl
+        rw [this]; ac_rfl
+      rw [e1]; rw [e2] at h2; omega
+    have h4 : 4 * (T * P2') - P2' ≤ q0 := by
+      rw [← hq0]; exact (Nat.le_div_iff_mul_le hP1pos).2 h3
     omega
-  | false =>
-    simp only [Bool.false_eq_true, if_false]
-    exact scale_eq_zero_iff v h0 h1
+  -- upper bound: q0 + 1 ≤ 4·T·P2' + P2'
+  have hR : q0 + 1 ≤ 4 * (T * P2') + P2' := by
+    have h1 : 4000 * q1 < 4 * (T * P1) + P1 := by omega
+    have h2 : P2' * (4000 * q1) < P2' * (4 * (T * P1) + P1) := Nat.mul_lt_mul_of_pos_left h1 hP2
+    have h3 : 1000 * q1 * (4 * P2') < (4 * (T * P2') + P2') * P1 := by
+      have e1 : 1000 * q1 * (4 * P2') = P2' * (4000 * q1) := by
+        have : (4000:Nat) = 1000 * 4 := rfl
+        rw [this]; ac_rfl
+      have e2 : (4 * (T * P2') + P2') * P1 = P2' * (4 * (T * P1) + P1) := by
+        rw [Nat.add_mul, Nat.mul_add]
+        congr 1 <;> ac_rfl
+      rw [e1, e2]; exact h2
+    have h4 : q0 < 4 * (T * P2') + P2' := by
+      rw [← hq0]; exact (Nat.div_lt_iff_lt_mul hP1pos).2 h3
+    omega
+  apply Nat.div_eq_of_lt_le
+  · have : T * (2 * (4 * P2')) = 8 * (T * P2') := by
+      have : (8:Nat) = 2 * 4 := rfl
+      rw [this]; ac_rfl
+    rw [this]; rcases hq2 with h | h <;> omega
+  · have : (T + 1) * (2 * (4 * P2')) = 8 * (T * P2') + 8 * P2' := by
+      rw [Nat.add_mul]
+      have : T * (2 * (4 * P2')) = 8 * (T * P2') := by
+        have : (8:Nat) = 2 * 4 := rfl
+        rw [this]; ac_rfl
+      rw [this]; omega
+    rw [this]; rcases hq2 with h | h <;> omega
+
+theorem ulpExp_le_gen (num den a b : Nat) (hn : num ≠ 0) (hd : den ≠ 0) (h1 : num < 2 ^ (a + 1)) (h2 : 2 ^ b ≤ den)
+    (hc : (-1074 : Int) ≤ (a : Int) - b - 52) : ulpExp num den ≤ (a : Int) - b - 52 := by
+  have l1 : Nat.log2 num < a + 1 := (Nat.log2_lt hn).2 h1
+  have l2 : b ≤ Nat.log2 den := (Nat.le_log2 hd).2 h2
+  unfold ulpExp
+  simp only []
+  split <;> split <;> omega
+
+/-- facts about the binary64 nearest to T/1000 for T < 10^13 -/
+theorem round1_facts (T : Nat) (hT1 : 1000 ≤ T) (hT2 : T < 10000000000000) :
+    ∃ j1 : Nat, 18 ≤ j1 ∧ (roundPos T 1000).2 = -(j1 : Int) ∧
+      T * 2 ^ j1 ≤ 1000 * (roundPos T 1000).1 + 1000 ∧ 1000 * (roundPos T 1000).1 ≤ T * 2 ^ j1 + 1000 := by
+  have hx : ulpExp T 1000 ≤ ((43 : Nat) : Int) - ((9 : Nat) : Int) - 52 :=
+    ulpExp_le_gen T 1000 43 9 (by omega) (by omega) (by
+      have : (2:Nat) ^ (43 + 1) = 17592186044416 := by decide
+      omega) (by decide) (by omega)
+  generalize hxe : ulpExp T 1000 = x at hx
+  refine ⟨(-x).toNat, by omega, ?_, ?_⟩
+  · simp only [roundPos, hxe]; omega
+  · have hneg : ¬ (x ≥ 0) := by omega
+    simp only [roundPos, hxe, roundAt, hneg, if_false]
+    generalize 2 ^ (-x).toNat = P
+    generalize hA : T * P = A
+    have := Nat.div_add_mod A 1000
+    have := Nat.mod_lt A (by decide : 1000 > 0)
+    split <;> omega
+
+theorem mulRound_fact (T q1 j1 : Nat) (hT2 : T < 10000000000000) (hj : 18 ≤ j1) (hq : q1 ≠ 0)
+    (hlo : T * 2 ^ j1 ≤ 1000 * q1 + 1000) (hhi : 1000 * q1 ≤ T * 2 ^ j1 + 1000) :
+    f64ToU64 (F64.mulNat ⟨false, q1, -(j1 : Int)⟩ 1000).round = (T : Int) := by
+  have hP1 : 4000 < 2 ^ j1 := by
+    have : 2 ^ 18 ≤ 2 ^ j1 := Nat.pow_le_pow_right (by decide) hj
+    have e : (2:Nat) ^ 18 = 262144 := by decide
+    omega
+  have hxneg : ¬ (-(j1 : Int) ≥ 0) := by omega
+  have htn : (- -(j1 : Int)).toNat = j1 := by omega
+  generalize hP1e : 2 ^ j1 = P1 at hP1 hlo hhi
+  have hnum : q1 * 1000 < 2 ^ (44 + j1 + 1) := by
+    have e : 2 ^ (44 + j1 + 1) = 35184372088832 * P1 := by
+      rw [show 44 + j1 + 1 = 45 + j1 by omega, Nat.pow_add, hP1e]
+    have h1 : T * P1 ≤ 10000000000000 * P1 := Nat.mul_le_mul_right _ (by omega)
+    rw [e]; omega
+  have hx2 : ulpExp (q1 * 1000) P1 ≤ ((44 + j1 : Nat) : Int) - (j1 : Int) - 52 :=
+    ulpExp_le_gen (q1 * 1000) P1 (44 + j1) j1 (by omega) (by omega) hnum (by rw [hP1e]; exact Nat.le_refl _) (by omega)
+  generalize hx2e : ulpExp (q1 * 1000) P1 = x2 at hx2
+  have hx2neg : ¬ (x2 ≥ 0) := by omega
+  obtain ⟨j2', hj2⟩ : ∃ j2', (-x2).toNat = j2' + 2 := ⟨(-x2).toNat - 2, by omega⟩
+  have hP2 : 2 ^ (-x2).toNat = 4 * 2 ^ j2' := by
+    rw [hj2, Nat.pow_add]; have : (2:Nat) ^ 2 = 4 := by decide
+    rw [this, Nat.mul_comm]
+  have hP2pos : 0 < 2 ^ j2' := Nat.pow_pos (by decide)
+  simp only [F64.mulNat, hq, if_false, hxneg, htn, hP1e, roundPos, hx2e, F64.round, hx2neg, roundAt, hP2]
+  generalize 2 ^ j2' = P2' at hP2pos
+  have hcomm : q1 * 1000 = 1000 * q1 := Nat.mul_comm _ _
+  rw [hcomm]
+  have key : ∀ q2, (q2 = 1000 * q1 * (4 * P2') / P1 ∨ q2 = 1000 * q1 * (4 * P2') / P1 + 1) →
+      (2 * q2 + 4 * P2') / (2 * (4 * P2')) = T :=
+    fun q2 h => round_core T q1 P1 P2' q2 hP1 hP2pos hlo hhi h
+  have fin : ∀ n : Nat, n = T → f64ToU64 ⟨false, n, 0⟩ = (T : Int) := by
+    intro n hn; subst hn
+    simp only [f64ToU64, F64.truncMag, Bool.false_eq_true, if_false]
+    have : ((n * 2 ^ (0:Int).toNat : Nat) : Int) = (n : Int) := by simp
+    simp only [ge_iff_le, Int.le_refl, if_true, this]
+    have : (n : Int) < 18446744073709551616 := by omega
+    simp only [this, if_true]
+  split
+  · exact fin _ (key _ (Or.inr rfl))
+  · exact fin _ (key _ (Or.inl rfl))
+
+/-- fractional seconds `<s>.<fff>` as a JSON number are read as the instant 1000·s + f ms -/
+theorem extractNum_fracText (s f : Nat) (hs : 100000000 ≤ s) (hs2 : s < 10000000000) (hf : f < 1000) :
+    extractNum (fracText s f) = ((1000 * s + f : Nat) : Int) := by
+  have hpi : jpParseInt (fracText s f) = none := jpParseInt_fracText s f (by omega)
+  have hpf := jpParseFloat_fracText s f (by omega) hs2 hf
+  have htm := truncMag_round_frac s f (by omega) hs2 hf
+  obtain ⟨j1, hj, hx, hlo, hhi⟩ := round1_facts (1000 * s + f) (by omega) (by omega)
+  generalize hq1 : (roundPos (1000 * s + f) 1000).1 = q1 at hpf htm hlo hhi
+  rw [hx] at hpf htm
+  have hq : q1 ≠ 0 := by
+    intro h0; subst h0
+    have : 1 ≤ 2 ^ j1 := Nat.pow_pos (by decide)
+    have : 1000 * s + f ≤ (1000 * s + f) * 2 ^ j1 := Nat.le_mul_of_pos_right _ this
+    omega
+  have hu : f64ToU64 ⟨false, q1, -(j1 : Int)⟩ = (s : Int) := by
+    simp only [f64ToU64, htm, Bool.false_eq_true, if_false]
+    have : ((s : Nat) : Int) < 18446744073709551616 := by omega
+    simp only [this, if_true]
+  unfold extractNum
+  simp only [hpi, hpf, hu, isMilli_false (v := (s : Int)) (by omega), Bool.not_false, Bool.true_or, Bool.and_self, if_true]
+  exact mulRound_fact (1000 * s + f) q1 j1 (by omega) hj hq hlo hhi
 
 end SigModel.Lemmas.C16
